@@ -64,6 +64,22 @@ Theorem C07_residual_invariant_under_relabelling : forall n (p q : list nat) (A 
   sqn ROps (vsub ROps (mv ROps A' (permute 0%R p x)) b') = sqn ROps (vsub ROps (mv ROps A x) b).
 Proof. exact residual_of_relabelled_system. Qed.
 
+(* pressures (zero sum) and tensions (mean one) are least-squares solutions under a constraint on the SUM of the unknowns; the sum does not
+   depend on the order of the unknowns, so a minimiser among the candidates of a given sum relabels into a minimiser of the relabelled system
+   among the (relabelled) candidates of that sum: the same value for every physical interface / cell *)
+Theorem C07_sum_invariant_under_relabelling : forall (p : list nat) (x : list R),
+  Permutation p (seq 0 (length x)) -> vsum ROps (permute 0%R p x) = vsum ROps x.
+Proof. exact sum_invariant_under_relabelling. Qed.
+Theorem C07_constrained_minimiser_relabels : forall n (p q : list nat) (A : list (list R)) (b x : list R) (s : R),
+  rows_ok n A -> length x = n -> length b = length A -> Permutation p (seq 0 n) -> Permutation q (seq 0 (length A)) ->
+  vsum ROps x = s ->
+  (forall x', length x' = n -> vsum ROps x' = s -> (sqn ROps (vsub ROps (mv ROps A x) b) <= sqn ROps (vsub ROps (mv ROps A x') b))%R) ->
+  let '(A', b') := relabel_system p q A b in
+  vsum ROps (permute 0%R p x) = s /\
+  forall x', length x' = n -> vsum ROps (permute 0%R p x') = s ->
+    (sqn ROps (vsub ROps (mv ROps A' (permute 0%R p x)) b') <= sqn ROps (vsub ROps (mv ROps A' (permute 0%R p x')) b'))%R.
+Proof. exact constrained_minimiser_relabels. Qed.
+
 Print Assumptions C07_interfaces_rename.
 Print Assumptions C07_cell_interfaces_rename.
 Print Assumptions C07_pressure_row_orientation.
@@ -72,3 +88,5 @@ Print Assumptions C07_cell_shift.
 Print Assumptions C07_cell_flip.
 Print Assumptions C07_tissue_shift_flip.
 Print Assumptions C07_residual_invariant_under_relabelling.
+Print Assumptions C07_sum_invariant_under_relabelling.
+Print Assumptions C07_constrained_minimiser_relabels.
